@@ -242,7 +242,7 @@ func (g *Gen) boxCompKey(t types.Type, leafPath string) string {
 func (g *Gen) arrayElemHeap(t types.Type) (types.Type, bool) {
 	if a, ok := types.Unalias(t).Underlying().(*types.Array); ok {
 		sh := g.W.shapes.shape(a.Elem())
-		if len(sh) == 1 {
+		if len(sh) == 1 && g.W.shapes.shape(t)[0].Kind == "arr" {
 			return a.Elem(), true
 		}
 	}
